@@ -126,13 +126,23 @@ func (s *c08BS) list(ctx context.Context, slow bool, clock *int64) ([]int, error
 	}
 	var out []int
 	for c := range ch {
-		if i, ok := s.keyOf[string(c.Hash())]; ok {
+		i, ok := s.keyOf[string(c.Hash())]
+		if ok {
 			out = append(out, i)
 		} else {
 			out = append(out, -1)
 		}
 		if slow {
 			runtime.Gosched()
+			// a consumer that looks every listed key up before taking the next one
+			if ok {
+				if has, err := s.bs.Has(ctx, lab.ToCid(s.blks[i].Cid)); err == nil && !has {
+					return out, errors.New("listed key is not in the store (Has = false while listing)")
+				}
+				if b, err := s.bs.Get(ctx, lab.ToCid(s.blks[i].Cid)); err == nil && !bytes.Equal(b.RawData(), s.blks[i].Data) {
+					return out, errors.New("listed key: Get returned wrong bytes while listing")
+				}
+			}
 		}
 	}
 	return out, nil
@@ -229,7 +239,7 @@ func c08Child(args []string) int {
 		}()
 		select {
 		case <-done:
-		case <-time.After(90 * time.Second):
+		case <-time.After(45 * time.Second):
 			// bounded-progress monitor: the history is stuck; keep the goroutine dump for classification
 			buf := make([]byte, 1<<20)
 			n := runtime.Stack(buf, true)
@@ -740,7 +750,7 @@ func runC08(t *mon.T, raw json.RawMessage) {
 		// bounded progress: classify the dump
 		blocked := strings.Count(res.Stuck, "sync.(*RWMutex)") + strings.Count(res.Stuck, "sync.(*Mutex).Lock")
 		if blocked > 0 && strings.Contains(res.Stuck, "github.com/ipld/go-car") {
-			t.ViolateD("deadlock/"+d.Kind, mon.Trunc(res.Stuck, 12000), "a history made no progress for 90 s with %d goroutines parked on go-car mutexes", blocked)
+			t.ViolateD("deadlock/"+d.Kind, mon.Trunc(res.Stuck, 12000), "a history made no progress for 45 s with %d goroutines parked on go-car mutexes", blocked)
 		} else {
 			t.Inconclusive("history stuck without goroutines parked on go-car mutexes")
 		}
@@ -787,7 +797,7 @@ func init() {
 		ID:      "C08",
 		Level:   "exploration",
 		Workers: 8,
-		Rule: "cases = batches of short concurrent histories executed in a child built with -race (GORACE halt_on_error=0, logs parsed): G ∈ {2,4,8,16} goroutines x 3-10 ops each on one shared blockstore.ReadWrite / storage.StorageCar / DeferredCarWriter over 8-32 keys (one content-addressed block per key), op mix Put, PutMany, Has, Get, GetSize, AllKeysChan (fast, slow and cancelled consumers), Roots and one racing Finalize; Gosched injected between the writes of a section via the verif write hook / memfile hook. Monitors: (1) every race-detector report, normalised to the innermost go-car frame pair; (2) call/return history on one atomic logical clock, per-key porcupine check against the set model {absent→present}, listing expanded to per-key observations; interval rules for closed-errors vs the terminal op; (3) bounded progress: a history stuck for 90 s with goroutines parked on go-car mutexes is a deadlock, otherwise inconclusive; (4) reference decode of the finalized file: every acknowledged block exactly once, nothing unacknowledged, matching index. quick = 48 batches x 16 histories, thorough = 400 x 32",
+		Rule: "cases = batches of short concurrent histories executed in a child built with -race (GORACE halt_on_error=0, logs parsed): G ∈ {2,4,8,16} goroutines x 3-10 ops each on one shared blockstore.ReadWrite / storage.StorageCar / DeferredCarWriter over 8-32 keys (one content-addressed block per key), op mix Put, PutMany, Has, Get, GetSize, AllKeysChan (fast consumers, slow consumers that call Has/Get for every listed key before taking the next one, cancelled consumers), Roots and one racing Finalize; Gosched injected between the writes of a section via the verif write hook / memfile hook. Monitors: (1) every race-detector report, normalised to the innermost go-car frame pair; (2) call/return history on one atomic logical clock, per-key porcupine check against the set model {absent→present}, listing expanded to per-key observations; interval rules for closed-errors vs the terminal op; (3) bounded progress: a history stuck for 45 s with goroutines parked on go-car mutexes is a deadlock, otherwise inconclusive; (4) reference decode of the finalized file: every acknowledged block exactly once, nothing unacknowledged, matching index. quick = 48 batches x 16 histories, thorough = 400 x 32",
 		Assumptions: []string{"the race detector reports a racy pair only when both accesses execute in one run; linearizability is judged on the interleavings the scheduler and the injected yields produced (counters: distinct-interleaving-signatures, overlap:*)", "DeferredCarWriter.OnPut is registration, done before the goroutines start"},
 		Gen:   genC08,
 		Run:   runC08,
